@@ -333,6 +333,9 @@ theorem inv_interrupt (s : St) (p : Pid) (h : Inv s) : Inv (interrupt s p) := by
   · rename_i hpc
     have hf : (s.kind p, p) ∈ s.files := h.own p (by simp [hpc, hasFile])
     exact h.move p _ (fun _ => hf) (fun _ => rfl) (fun _ => Or.inl rfl) (fun e => by cases e)
+  · rename_i hpc
+    have hf : (s.kind p, p) ∈ s.files := h.own p (by simp [hpc, hasFile])
+    exact h.move p _ (fun _ => hf) (fun _ => rfl) (fun _ => Or.inl rfl) (fun e => by cases e)
   · rename_i l hpc
     exact h.move p _ (by simp [hasFile]) (fun hm => absurd hm (h.noFile (by simp [hpc, hasFile])))
       (fun hd => Or.inr (h.respOther p (Or.inl (by simp [hpc, engaged])) hd)) (fun e => by cases e)
@@ -405,6 +408,7 @@ theorem noRelFail_stepE (s : St) (ev : Ev) (h : Inv s) (hn : ∀ i e, s.pc i ≠
     · subst hip
       simp only [stepE, interrupt]
       split
+      · simp [setPC]
       · simp [setPC]
       · simp [setPC]
       · exact hn i e
